@@ -173,9 +173,48 @@ func (i *interpreter) store(T types.Type, addr *value, v value) {
 	store(T, addr, m)
 }
 
+// cloneValue copies aggregates so that two memory cells never share one
+// struct/array object (cells are mutated in place by store).
+func cloneValue(v value) value {
+	switch x := v.(type) {
+	case structure:
+		c := make(structure, len(x))
+		for k := range x {
+			c[k] = cloneValue(x[k])
+		}
+		return c
+	case array:
+		c := make(array, len(x))
+		for k := range x {
+			c[k] = cloneValue(x[k])
+		}
+		return c
+	}
+	return v
+}
+
+func cloneSlice(s []value) []value {
+	if len(s) == 0 {
+		return s
+	}
+	switch s[0].(type) {
+	case structure, array:
+		c := make([]value, len(s))
+		for k := range s {
+			c[k] = cloneValue(s[k])
+		}
+		return c
+	}
+	return s
+}
+
 func (i *interpreter) guardedCopy(dst, src []value) value {
 	if i.guard == nil || i.guard.IsTrue() {
-		return copy(dst, src)
+		n := len(dst)
+		if len(src) < n {
+			n = len(src)
+		}
+		return copy(dst, cloneSlice(src[:n]))
 	}
 	n := len(dst)
 	if len(src) < n {
@@ -183,7 +222,7 @@ func (i *interpreter) guardedCopy(dst, src []value) value {
 	}
 	// respect overlap semantics of copy: snapshot src first
 	tmp := make([]value, n)
-	copy(tmp, src[:n])
+	copy(tmp, cloneSlice(src[:n]))
 	for k := 0; k < n; k++ {
 		m, ok := i.iteValue(i.guard, tmp[k], dst[k])
 		if !ok {
